@@ -1265,6 +1265,24 @@ func main() {
 				}
 			}
 		}
+		// … and sometimes a later transaction leaves a committed LOCK-type record (lock-only mutation) or a rollback
+		// marker ABOVE such a put: reads, scans and reverse scans must look through those records
+		if len(g.txns) >= 3 && g.r.Chance(50) {
+			t := g.txns[2]
+			k := g.key()
+			if g.r.Chance(60) {
+				do(fmt.Sprintf("prewrite %s %d 0 %d 0 1 0 - 2:%s:~:0:0", hx(k), t.start, g.ttl(), hx(k)))
+				do(fmt.Sprintf("commit %s %d %d", hx(k), t.start, t.commit))
+			} else {
+				do(fmt.Sprintf("prewrite %s %d 0 %d 0 1 0 - 0:%s:7699:0:0", hx(k), t.start, g.ttl(), hx(k)))
+				do(fmt.Sprintf("rollback %s %d", hx(k), t.start))
+			}
+			t.finished[string(k)] = true
+			late := strconv.FormatUint(uint64(len(g.tsAt)+2)*10*phys, 10)
+			do(fmt.Sprintf("scaneq ~ ~ %s 1 - %s", late, hexList(keyPool)))
+			do(fmt.Sprintf("rscan ~ ~ 10 %s 1 -", late))
+			do(fmt.Sprintf("get %s %s 1 -", hx(k), late))
+		}
 		n := 5 + g.r.Intn(lenRand)
 		for i := 0; i < n; i++ {
 			do(g.cmd())
